@@ -61,7 +61,8 @@ def render_for(form, alist):
         src, attrs = fbm.start_tag(alist, quote)
     except AssertionError:
         return None
-    if any(bad in src for bad in form.forbid):
+    probe = src.replace("\\(", "").replace("\\)", "") if form.id == "md-paren" else src    # escaped parentheses are legal in a (...) title
+    if any(bad in probe for bad in form.forbid):
         return None
     if "\n" in src and form.kind == "line":
         return None
